@@ -19,6 +19,19 @@ def dump_sd(sd, names, attractors=True):
                 v = nd[k]
                 rec[k] = None if v is None else [_t(names, s) for s in v]
             rec["has_sets"] = nd["attractor_sets"] is not None
+            if nd["attractor_sets"] is not None:
+                pos = [(v, names.index(sd.network.get_variable_name(v))) for v in sd.network.variables()]
+                cont = []
+                for vs in nd["attractor_sets"]:
+                    sts = []
+                    for vert in vs.items():
+                        d = vert.to_dict()
+                        x = [0] * len(names)
+                        for v, i in pos:
+                            x[i] = int(d[v])
+                        sts.append(tuple(x))
+                    cont.append(sorted(sts))
+                rec["sets_content"] = cont
         nodes.append(rec)
     edges = []
     for (p, c, data) in sd.dag.edges(data=True):
